@@ -460,6 +460,27 @@ impl<'u> Driver<'u> {
         }
     }
 
+    /// Resubmission of a stored event as ANOTHER valid copy: same id (the id does not cover the signature, and BIP-340
+    /// signing is randomised), other signature bytes.  It is the same event: the store answers as for any resubmission
+    /// and keeps the copy it has.  Only issued while the event is retrievable (otherwise the call is skipped).
+    pub fn store_alt(&mut self, i: usize) -> String {
+        let st = self.st();
+        let present = matches!(catch_unwind(AssertUnwindSafe(|| st.has_event(self.u.id(i)))), Ok(Ok(true)));
+        if !present {
+            return "skipped".into();
+        }
+        let mut bytes = self.u.ev(i).as_bytes().to_vec();
+        for b in bytes[80..144].iter_mut() {
+            *b ^= 0x5A;
+        }
+        let alt = pocket_types::OwnedEvent(bytes);
+        match catch_unwind(AssertUnwindSafe(|| st.store_event(&alt))) {
+            Ok(Ok(_)) => "ok".into(),
+            Ok(Err(e)) => classify(&e),
+            Err(_) => "panic".into(),
+        }
+    }
+
     fn base_id(&self, base: usize) -> usize {
         let mut bases = self.bases.borrow_mut();
         match bases.iter().position(|b| *b == base) {
